@@ -240,6 +240,16 @@ def check_attribute_gate(ctx):
 def required_attributes(ctx):
     sm, res = ctx.sm, ctx.res
     res.rule('R-DOM.required-attributes', "the required-attribute check raises exactly for a use=\"required\" attribute that is not currently set, for every complex-typed element")
+    # the final check of a checked element runs it on every path that goes on to serialise (whatever the element's content model is)
+    from ..engine import get_cg
+    from ..rules.mustfx import MustFx
+    checked = {'self.xsd_check': True, 'self._xsd_check': True}
+    mx = ctx.lazy('mustfx-checked', lambda: MustFx(get_cg(ctx), checked))
+    fc = sm.func('XMLElement', '_final_checks', T.M_XMLELEMENT)
+    for want, what in (('XMLElement._check_required_attributes', 'required attributes'), ('XMLElement._check_required_value', 'required value')):
+        res.check(mx.performed_on_every_path(fc, lambda l, _w=want: l[0] == 'call' and l[1] == _w and l[2] == 'self', checked), 'R-DOM.required-attributes', fc.fq,
+                  f"with xsd_check on, every normal path of _final_checks checks the element's {what} (elements without a content model included)",
+                  key=f"R-DOM.required-attributes|final-check-every-path|{want.split('.')[-1]}")
     f = sm.func('XMLElement', '_check_required_attributes', T.M_XMLELEMENT)
     g = cfg_of(f.node)
     raises = [n for n in g.stmt_nodes() if n.kind == 'stmt' and isinstance(n.ast, ast.Raise) and 'XSDAttributeRequiredException' in unparse(n.ast)]
